@@ -95,7 +95,7 @@ def decode_varint_in_reverse(byte_array: bytearray, offset: int, max_varint_leng
             log_message = "A varint was not determined from byte array: {} starting at offset: {} in reverse."
             log_message = log_message.format(byte_array, offset)
             getLogger(LOGGER_NAME).debug(log_message)
-            return InvalidVarIntError(log_message)
+            raise InvalidVarIntError(log_message)
 
         varint_byte = ord(
             byte_array[
